@@ -22,13 +22,22 @@ The engine has three layers, all of them static:
        * locals of integer/bool type (`const bool neg = lhs < 0;`), plain assignment to them;
        * `this->field` of integer/bool type: read (initial value is the symbol `this.<field>`) and plain assignment
          (recorded in the outcome's store) -- this is what lets small state machines such as CheckOrder be decided;
-       * calls to other functions of the fact base that are themselves comparison-only and do not touch `this`
-         (an extracted helper, a functor such as `id_order{}(a, b)`): compiled recursively and inlined at evaluation;
+       * calls to other functions of the fact base that are themselves comparison-only (an extracted helper, a functor
+         such as `id_order{}(a, b)`, a static check function that may throw): compiled recursively and inlined at
+         evaluation, also as a statement.  A helper invoked on `this` (private member helper) shares the caller's fields
+         (reads and writes); a throw inside a helper propagates to the outermost outcome; object/pointer arguments are
+         passed opaquely (usable in the helper only through atoms, and atoms stay enabled in a helper only when it
+         receives the caller's object parameters in the same positions);
+       * std::min / std::max / std::clamp over integers, with `<` or with a comparator argument (functor with a
+         comparison-only call operator, capture-less lambda):  max(a, b) == (a < b) ? b : a  etc.;
        * `return [expr]`, `throw` (terminal outcome; the operand of the throw is not inspected), if / loops as CFG
          branches (evaluation has a step bound; exceeding it is `Inexact`).
     Rejected (=> `Inexact`): arithmetic, unary minus, `abs`, bit operations, narrowing or sign-changing conversions,
-    increments, compound assignment, switch, calls with unknown effect, object-typed parameters used other than through
-    an *atom*.
+    increments, compound assignment (all of these with `Inexact.kind == 'arithmetic'`: the code COMPUTES with its inputs,
+    which a rule that requires a pure comparison should report as a violation of that rule), and switch, try/catch,
+    calls with unknown effect, object-typed parameters used other than through an *atom* (`kind == 'shape'`: a
+    construct the engine does not model => analysis-broken).  `Inexact.context` says where: ('store', field) /
+    ('local', name) / ('branch',) / ('return',) / ('stmt',); `Inexact.site` is file:line.
     ATOMS: the optional hook `atoms(fn, node)` lets a rule declare that an expression (typically a const accessor call
     such as `node.id()`, `lhs.version()`, `count()`) is an opaque input.  It returns None (not an atom), a symbol name,
     or `(name, domain)` with domain = `(lo, hi)` or 'bool'.  Without an explicit domain the node's canonical type
